@@ -18,9 +18,9 @@ EFFECTIVE = LAYERS[:11]
 NAMES = ['alpha', 'beta']
 
 
-def build(root, assign, main_present, fmts):
+def build(root, assign, main_present, fmts, dirs=None):
     """assign: name -> set of layers defining it"""
-    fs = FsSim(root)
+    fs = FsSim(root, dirs=dirs) if dirs else FsSim(root)
     defaults = []
     for n in NAMES:
         if 'default' in assign[n]:
@@ -41,9 +41,13 @@ def build(root, assign, main_present, fmts):
     return fs, defaults
 
 
-def spec_winner(assign_n, main_present):
+def spec_winner(assign_n, main_present, dup=False):
     best = None
-    for l in EFFECTIVE:
+    order = list(EFFECTIVE)
+    if dup:
+        # policy.d is configured a second time after second.d: it is one more layer, on top
+        order += [l for l in EFFECTIVE if l.startswith('policy.d/')]
+    for l in order:
         if l in assign_n and (l != 'main' or main_present):
             best = l
     return best
@@ -71,8 +75,11 @@ def run(run, binfo):
         fmts = {l: rng.choice(['json', 'yaml']) for l in LAYERS}
         shutil.rmtree(root, ignore_errors=True)
         os.makedirs(root)
-        fs, defaults = build(root, assign, main_present, fmts)
-        e = make_enforcer(root, defaults)
+        mode = ['override', 'override+dup', 'config_file', 'override'][i % 4]
+        from loadsim import DIRS
+        dirs = list(DIRS) + (['policy.d'] if mode == 'override+dup' else [])
+        fs, defaults = build(root, assign, main_present, fmts, dirs)
+        e = make_enforcer(root, defaults, dirs=dirs, dirs_via='config_file' if mode == 'config_file' else 'override')
         e.load_rules()
         obs = observe(e)
         mod = model_history([1, enc_defaults(defaults), 1], [[fs.wire(), 0]])[0]
@@ -85,13 +92,13 @@ def run(run, binfo):
                 run.violation('layering-spec', 'name %s: effective %r, extracted spec_rule says %r' % (n, got_s, want_s),
                               {'kind': 'failing-input', 'suite': 'spec-c09',
                                'input': {'assign': {k: sorted(v) for k, v in assign.items()},
-                                         'main_present': main_present, 'fmts': fmts},
+                                         'main_present': main_present, 'fmts': fmts, 'dirs_mode': mode},
                                'expected': want_s, 'observed': got_s})
         run.evaluations += 1
         if obs != mod:
             bad_corr.append((repr(assign), mod, obs))
         for n in NAMES:
-            w = spec_winner(assign[n], main_present)
+            w = spec_winner(assign[n], main_present, dup=(mode == 'override+dup'))
             got = dict(obs['rules']).get(n)
             want = None if w is None else 'role:' + w.replace('/', '_').replace('.', '_')
             if got != want:
@@ -99,7 +106,7 @@ def run(run, binfo):
                               % (n, sorted(assign[n]), main_present, got, want),
                               {'kind': 'failing-input', 'suite': 'spec-c09',
                                'input': {'assign': {k: sorted(v) for k, v in assign.items()},
-                                         'main_present': main_present, 'fmts': fmts},
+                                         'main_present': main_present, 'fmts': fmts, 'dirs_mode': mode},
                                'expected': want, 'observed': got})
             # decisions on role subsets agree with the winning layer
             if want is not None:
@@ -114,7 +121,7 @@ def run(run, binfo):
                 run.violation('undefined-allows', 'name %s defined nowhere is allowed' % n,
                               {'kind': 'failing-input', 'suite': 'spec-c09',
                                'input': {'assign': {k: sorted(v) for k, v in assign.items()},
-                                         'main_present': main_present, 'fmts': fmts},
+                                         'main_present': main_present, 'fmts': fmts, 'dirs_mode': mode},
                                'expected': False, 'observed': True})
         run.nontrivial.add(repr(sorted(assign['alpha'])) + str(main_present))
         if i == 3:
@@ -131,7 +138,7 @@ def run(run, binfo):
                        'input': c, 'model': m, 'observed': i, 'count': len(bad_corr)})
     run.rule = ('%d layouts: policy name alpha in every%s subset of the layers %r (registered default, main file '
                 'present/absent, three files in policy.d whose names exercise the sort order, a file in a second directory, a '
-                'dot-file and a sub-directory that must be ignored, a configured-but-missing directory), beta in a random '
+                'dot-file and a sub-directory that must be ignored, configured-but-missing directories; policy_dirs set by override, with policy.d configured twice, or by repeated lines in a configuration file), beta in a random '
                 'subset, each file independently JSON or YAML; effective definition and decisions vs "last writer in the '
                 'documented order", model vs implementation on Enforcer.rules/file_rules/cache; plus the %d-row file-selection '
                 'table against real oslo.config. non-trivial = distinct layouts'
